@@ -11,7 +11,7 @@ COMMON_ASSUMPTIONS = [
 PROPS = {
     "C10": {
         "level": "proof",
-        "kani": {"units": ["c10_integer"], "timeout_quick": 1500, "timeout_thorough": 5400, "jobs": 8},
+        "kani": {"units": ["c10_integer", "c10_string"], "timeout_quick": 1500, "timeout_thorough": 5400, "jobs": 8},
         "functions": [
             {"path": "typify-impl/src/convert.rs", "fn": "convert_integer"},
         ],
@@ -73,5 +73,162 @@ PROPS = {
             "every other TypeSpace field (settings, definitions, cache, defaults, uses_*) is dropped from the extracted struct; the extractor fails if an extracted body mentions one",
             "the unverified ingestion code calls these functions with a well-formed state (wf) and next_id < u64::MAX",
         ],
+    },
+    "C05": {
+        "level": "other",
+        "kani": {"units": ["c05_validator"], "timeout_quick": 1200, "timeout_thorough": 3600},
+        "functions": [
+            {"path": "typify-impl/src/util.rs", "fn": "is_valid"},
+            {"path": "typify-impl/src/util.rs", "fn": "new", "impl": r"^impl StringValidator\b"},
+        ],
+        "clauses": [
+            "P1 StringValidator::is_valid (no pattern) == (min <= |s| <= max) with |s| counted in Unicode scalar values -- for strings of at most 2 scalar values (every scalar value, all UTF-8 widths) and every Option<u32> pair",
+            "P1n StringValidator::new carries exactly the schema's length bounds (pattern absent)",
+        ],
+        "not_decided": [
+            "the emitted FromStr / TryFrom / Deserialize templates of constrained newtypes (token templates)",
+            "pattern enforcement (regress engine), allow / deny lists, tuple arity, tag values, field visibility",
+            "deny_unknown_fields <=> additionalProperties:false (struct_members) and required <=> non-optional (struct_property): reach sanitize / B-trees with several entries; not within Kani's reach",
+            "strings longer than 2 scalar values (is_valid is loop-free in the string apart from the character count)",
+        ],
+        "checker_cmd": "cargo kani -p typify-impl --exact --harness <each>",
+        "trusted_base": ["Kani 0.68.0 / CBMC 6.11.0", "kani/common.rs"],
+        "explanation": "Partial claim: only the generation-time length filter that decides which enumerated strings survive into a generated enum is under contract; its inputs are symbolic characters (bounded in number, not in value) and symbolic bounds. Everything C05 says about the behaviour of emitted impls is not decided.",
+        "assumptions": COMMON_ASSUMPTIONS,
+    },
+    "C06": {
+        "level": "other",
+        "kani": {"units": ["c06_validate"], "timeout_quick": 1500, "timeout_thorough": 3600},
+        "functions": [
+            {"path": "typify-impl/src/defaults.rs", "fn": "validate_value"},
+            {"path": "typify-impl/src/convert.rs", "fn": "convert_integer"},
+        ],
+        "clauses": [
+            "P1 validate_value on a leaf kind (Unit, Boolean, Integer, Float, String): Ok ==> the default has the JSON type of the kind",
+            "P2 Ok(Intrinsic) ==> the default equals the kind's Rust Default (null, false, 0, 0.0, \"\")",
+            "P3 Ok(Generic(g)) ==> g matches the kind and sign (Boolean/true, U64, NZU64 for NonZero types, I64 for negatives)",
+            "numeric default outside the admitted integer range is rejected when the schema is added: C10/P3 (convert_integer), proved there",
+        ],
+        "not_decided": [
+            "nested defaults (Option / Vec / Map / Tuple / Struct / Enum kinds need the id graph: B-trees with several entries)",
+            "rendering of defaults to Rust expressions (value.rs) and emission of Default impls / default functions (token templates)",
+            "Native kinds: validate_value accepts every default by design (the code's own comment says an invalid one fails an unwrap() in generated code)",
+            "has_default classification table (structs.rs)",
+        ],
+        "checker_cmd": "cargo kani -p typify-impl --exact --harness <each>",
+        "trusted_base": ["Kani 0.68.0 / CBMC 6.11.0", "kani/common.rs", "serde_json::Number / Value constructors"],
+        "explanation": "Partial claim: leaf default validation is proved type-sound for every JSON value shape (symbolic u64 / i64 / f64 payloads, empty and one non-empty string, empty containers); kinds are concrete per harness.",
+        "assumptions": COMMON_ASSUMPTIONS + ["non-empty strings are represented by the literal \"x\", non-empty containers are not probed (leaf kinds reject every container by its discriminant)"],
+    },
+    "C07": {
+        "level": "other",
+        "kani": {"units": ["c07_children"], "timeout_quick": 900, "timeout_thorough": 1800},
+        "functions": [
+            {"path": "typify-impl/src/cycles.rs", "fn": "get_child_ids"},
+        ],
+        "clauses": [
+            "P1 get_child_ids returns exactly the by-value children of an entry, per kind (18 kinds, 4 variant shapes): none for Box / Vec / Map / Set / Native / Reference / scalars",
+            "F1 the returned slots alias the entry: writing through them re-points exactly the by-value children",
+        ],
+        "not_decided": [
+            "break_cycles itself (the depth-first traversal with the active set): no result from Kani on two nodes (B-tree sets/maps), rejected by Verus (Vec<&mut T>, flat_map, partition, closures capturing &mut self) -- a change inside the traversal is NOT detected",
+            "'no box without a cycle' and round-tripping of recursive values",
+        ],
+        "checker_cmd": "cargo kani -p typify-impl --exact --harness <each>",
+        "trusted_base": ["Kani 0.68.0 / CBMC 6.11.0", "kani/te_support.rs constructors"],
+        "explanation": "Partial claim: the edge relation of the containment graph is exact; child vectors have at most 2 elements per variant / struct (bounded, the function is a structural map).",
+        "assumptions": COMMON_ASSUMPTIONS,
+    },
+    "C08": {
+        "level": "other",
+        "kani": {"units": ["c08_recase"], "timeout_quick": 1200, "timeout_thorough": 3600},
+        "functions": [
+            {"path": "typify-impl/src/util.rs", "fn": "recase"},
+        ],
+        "clauses": [
+            "P1 recase: rename == None <=> identifier == JSON name",
+            "P2 recase: rename == Some(r) ==> r == JSON name exactly",
+        ],
+        "not_decided": [
+            "identifier validity of sanitize (reaches syn::parse_str: Kani compiler crash; heck's Unicode casing)",
+            "distinctness of identifiers within a scope (variant-name uniqueness reaches sanitize and HashSet; field-name distinctness is not the postcondition of any function)",
+            "the rename attribute actually emitted (token templates)",
+        ],
+        "checker_cmd": "cargo kani -p typify-impl -Z stubbing --exact --harness <each>",
+        "trusted_base": ["Kani 0.68.0 / CBMC 6.11.0", "stub_sanitize (arbitrary string of <= 2 ASCII letters)"],
+        "explanation": "Partial claim: wire-name fidelity holds for every sanitiser (sanitize replaced by an arbitrary string) and every JSON name of at most 2 Unicode scalar values.",
+        "assumptions": COMMON_ASSUMPTIONS + ["sanitize is replaced by a nondeterministic stub; a refutation cannot be replayed natively and is reported with no-failing-input-found"],
+    },
+    "C09": {
+        "level": "other",
+        "kani": {"units": ["c09_merge"], "timeout_quick": 1500, "timeout_thorough": 3600},
+        "functions": [
+            {"path": "typify-impl/src/merge.rs", "fn": "merge_so_instance_type"},
+            {"path": "typify-impl/src/merge.rs", "fn": "merge_so_format"},
+            {"path": "typify-impl/src/merge.rs", "fn": "choose_value"},
+        ],
+        "clauses": [
+            "P1-P4 merge_so_instance_type (absent / single / array-of-2 arms except array x array): no value class valid under both is lost, never only if unsatisfiable, disjoint never permissive, order independent",
+            "P5-P6 merge_so_format on enumerated literal pairs: commutative, result is one of the inputs, equal inputs merge to themselves, absent is the identity, Err only for formats without a common instance",
+            "P7 choose_value: tighter bound / disjunction",
+        ],
+        "not_decided": [
+            "merge_schema, merge_so_object, merge_so_array beyond choose_value, distribution over anyOf / oneOf / not, roughly-equal reference preservation, the array x array arm of merge_so_instance_type (B-tree sets): outside Kani's reach",
+            "merge_so_number / merge_so_string panic (unimplemented!) on two different validations",
+            "agreement of the compiled merged type with validation semantics",
+        ],
+        "checker_cmd": "cargo kani -p typify-impl --exact --harness <each>",
+        "trusted_base": ["Kani 0.68.0 / CBMC 6.11.0", "the seven-class abstraction of JSON values in the harness"],
+        "explanation": "Partial claim: the leaf merges are intersections on a seven-class abstraction of JSON values; instance types are symbolic, format strings are enumerated literals.",
+        "assumptions": COMMON_ASSUMPTIONS,
+    },
+    "C15": {
+        "level": "other",
+        "kani": [
+            {"units": ["c15_cli"], "package": "verif-c15", "prepare": "c15_prepare", "timeout_quick": 1200, "timeout_thorough": 3600},
+            {"units": ["c15_cratevers"], "timeout_quick": 1200, "timeout_thorough": 3600},
+        ],
+        "functions": [
+            {"path": "cargo-typify/src/lib.rs", "fn": "from_str"},
+            {"path": "cargo-typify/src/lib.rs", "fn": "output_path"},
+            {"path": "cargo-typify/src/lib.rs", "fn": "use_builder"},
+            {"path": "typify-impl/src/lib.rs", "fn": "parse", "impl": r"^impl CrateVers\b"},
+        ],
+        "clauses": [
+            "P1 every crate name over [A-Za-z][A-Za-z0-9_-]{0,2} with version `*` (and rename=crate@* likewise) is accepted with exactly that name / rename",
+            "P2 `*` => Any, `!` => Never, semver => Version, anything else rejected (enumerated literals)",
+            "P3 output path: `-` => stdout, given path kept, default = input with extension rs (enumerated literals)",
+            "P4 use_builder == !no_builder",
+        ],
+        "not_decided": [
+            "token-for-token equality of macro, CLI and builder output",
+            "the macro's option mapping (proc-macro crate) and the CLI's mapping of options onto settings in convert()",
+            "writes nothing on failure (I/O in main.rs)",
+        ],
+        "checker_cmd": "python3 lib/c15_prepare.py (extraction) && cargo kani -p verif-c15 --exact --harness <each>; cargo kani -p typify-impl --exact --harness c15_cratevers_literals",
+        "trusted_base": ["Kani 0.68.0 / CBMC 6.11.0", "lib/c15_prepare.py drop list E1-E3 (clap attributes removed)", "semver crate"],
+        "explanation": "Partial claim: the CLI's crate-specifier grammar, version meaning, output-path rule and builder flag on mechanically extracted text; crate names are symbolic characters at concrete positions.",
+        "assumptions": COMMON_ASSUMPTIONS + ["clap feeds --crate values to CrateSpec::from_str unchanged (value_parser inferred from FromStr)"],
+    },
+    "C17": {
+        "level": "other",
+        "kani": {"units": ["c17_has_impl", "c10_string"], "timeout_quick": 1500, "timeout_thorough": 3600},
+        "functions": [
+            {"path": "typify-impl/src/type_entry.rs", "fn": "has_impl"},
+            {"path": "typify-impl/src/convert.rs", "fn": "convert_string"},
+        ],
+        "clauses": [
+            "P1 has_impl(kind, X) ==> the built-in Rust type implements X (bool, integers incl. NonZero, floats, String, (), serde_json::Value, Option/Vec/Map/Set)",
+            "P2 a native type claims exactly the impls it was registered with",
+            "P3 a struct claims Default iff it carries a default value",
+            "F1 whenever convert_string chooses a ::uuid / ::chrono path the matching uses_* flag is set (every format string of at most 10 bytes)",
+        ],
+        "not_decided": [
+            "every clause relating the API to emitted items: properties == fields, variants, builder presence, has_impl for named types vs emitted impls (e.g. Display claimed for constrained string newtypes), uses_serde_json / uses_regress on the remaining conversion paths",
+        ],
+        "checker_cmd": "cargo kani -p typify-impl -Z stubbing --exact --harness <each>",
+        "trusted_base": ["Kani 0.68.0 / CBMC 6.11.0", "the literal table of std trait facts in the harness"],
+        "explanation": "Partial claim: has_impl against a literal table of std facts for the kinds whose Rust type is known without emitted items; uses_uuid / uses_chrono on the string-format path.",
+        "assumptions": COMMON_ASSUMPTIONS,
     },
 }
